@@ -1,0 +1,51 @@
+//go:build verif
+
+package logic
+
+import (
+	"sort"
+
+	"github.com/q191201771/lal/pkg/rtmp"
+)
+
+// Hooks for the server-level tick / liveness-sweep checks (properties C03 and
+// C16).  Nothing here is compiled without -tags verif.  The tick itself is
+// VerifTick (verif_export_admission.go): the body of one iteration of the
+// one-second ticker of ServerManager.RunLoop.
+
+// VerifGroups returns the Group object registered for every stream name.  The
+// caller keeps the pointers (so that no address is ever reused) and ranks them
+// to observe whether a name got a fresh Group.
+func (sm *ServerManager) VerifGroups() map[string]*Group {
+	sm.mutex.Lock()
+	defer sm.mutex.Unlock()
+	out := map[string]*Group{}
+	sm.groupManager.Iterate(func(group *Group) bool {
+		out[group.streamName] = group
+		return true
+	})
+	return out
+}
+
+// VerifPushSessions returns the relay-push session of every configured target
+// of the stream's group, in the order of the target URLs (nil = none attached).
+func (sm *ServerManager) VerifPushSessions(streamName string) []*rtmp.PushSession {
+	sm.mutex.Lock()
+	defer sm.mutex.Unlock()
+	g := sm.getGroup("", streamName)
+	if g == nil {
+		return nil
+	}
+	g.mutex.Lock()
+	defer g.mutex.Unlock()
+	var urls []string
+	for u := range g.url2PushProxy {
+		urls = append(urls, u)
+	}
+	sort.Strings(urls)
+	var out []*rtmp.PushSession
+	for _, u := range urls {
+		out = append(out, g.url2PushProxy[u].pushSession)
+	}
+	return out
+}
